@@ -23,6 +23,7 @@ import (
 	"github.com/osmosis-labs/osmosis/v31/app"
 	cltypes "github.com/osmosis-labs/osmosis/v31/x/concentrated-liquidity/types"
 	pmtypes "github.com/osmosis-labs/osmosis/v31/x/poolmanager/types"
+	protorevkeeper "github.com/osmosis-labs/osmosis/v31/x/protorev/keeper"
 
 	"github.com/osmosis-labs/osmosis/v31/zzverif/core"
 )
@@ -32,10 +33,17 @@ type Node struct {
 	Ctx sdk.Context
 }
 
-func genesisNode() *Node {
+func genesisNode() *Node { return newNode(Script{}) }
+
+// newNode builds the base state a script starts from.
+func newNode(sc Script) *Node {
+	nv := sc.Validators
+	if nv == 0 {
+		nv = 2
+	}
 	big := "1000000000000000000000"
 	fund := core.Coins("foo", big, "bar", big, "baz", big, "uosmo", big, "eth", big, "usdc", big, "stake", big)
-	env := core.NewEnv(core.GenesisOpts{Balances: map[string]sdk.Coins{"A": fund, "B": fund, "C": fund, "T": fund}, NumValidators: 2,
+	env := core.NewEnv(core.GenesisOpts{Balances: map[string]sdk.Coins{"A": fund, "B": fund, "C": fund, "T": fund}, NumValidators: nv,
 		Mutate: func(a *app.OsmosisApp, gs app.GenesisState) {
 			// superfluid locks must last the staking unbonding time, which must be one of the lockable durations
 			var sg stakingtypes.GenesisState
@@ -93,6 +101,34 @@ func stripNums(s string) string {
 	return s
 }
 
+// errClass is the stable class of an error text: digits and quoted/bech32 payloads removed, clipped.
+func errClass(s string) string {
+	var sb strings.Builder
+	prevDigit := false
+	for _, r := range s {
+		if r >= '0' && r <= '9' {
+			if !prevDigit {
+				sb.WriteByte('#')
+			}
+			prevDigit = true
+			continue
+		}
+		prevDigit = false
+		sb.WriteRune(r)
+	}
+	out := sb.String()
+	if i := strings.Index(out, ":"); i > 0 && i < 120 {
+		// "panic in InitChain: <first clause>" - keep two clauses
+		if j := strings.Index(out[i+1:], ":"); j > 0 {
+			out = out[:i+1+j]
+		}
+	}
+	if len(out) > 140 {
+		out = out[:140]
+	}
+	return out
+}
+
 func (n *Node) deliverTx(msgs []sdk.Msg) Step {
 	a := n.Env.App
 	child, write := n.Ctx.CacheContext()
@@ -120,6 +156,20 @@ func (n *Node) deliverTx(msgs []sdk.Msg) Step {
 	return st
 }
 
+// postHandle runs the protorev post-handler (cyclic-arbitrage backrun of the swaps the transaction made)
+// exactly as the application's post-handler chain does after a delivered transaction.
+func (n *Node) postHandle(success bool) (out string) {
+	defer func() {
+		if r := recover(); r != nil {
+			out = fmt.Sprintf("panic: %v", r)
+		}
+	}()
+	ctx := n.Ctx.WithEventManager(sdk.NewEventManager())
+	dec := protorevkeeper.NewProtoRevDecorator(*n.Env.App.ProtoRevKeeper)
+	_, err := dec.PostHandle(ctx, nil, false, success, func(c sdk.Context, _ sdk.Tx, _, _ bool) (sdk.Context, error) { return c, nil })
+	return errStr(err) + ":" + eventsDigest(ctx.EventManager().ABCIEvents())
+}
+
 // RunBlock: BeginBlock(dt), transactions, EndBlock. Returns the steps and the full-store hash after the block.
 func (n *Node) RunBlock(b Block) []Step {
 	a := n.Env.App
@@ -131,7 +181,11 @@ func (n *Node) RunBlock(b Block) []Step {
 		b.Pre(n)
 	}
 	for _, tx := range b.Txs {
-		steps = append(steps, n.deliverTx(tx))
+		st := n.deliverTx(tx)
+		if b.Post {
+			st.Events += "|post:" + n.postHandle(st.Result == "ok")
+		}
+		steps = append(steps, st)
 	}
 	ctx2, eb, err := safeEnd(n)
 	n.Ctx = ctx2
@@ -139,6 +193,38 @@ func (n *Node) RunBlock(b Block) []Step {
 	hash := core.StateHash(a, n.Ctx, nil)
 	steps = append(steps, Step{What: "state", Result: hex.EncodeToString(hash[:8])})
 	return steps
+}
+
+// eventTypes summarises an events digest as "type×count" (debug output only).
+func eventTypes(d string) string {
+	cnt := map[string]int{}
+	var order []string
+	for _, part := range strings.Split(d, "}") {
+		i := strings.Index(part, "{")
+		if i < 0 {
+			continue
+		}
+		t := part[:i]
+		if j := strings.LastIndexAny(t, "|:"); j >= 0 {
+			t = t[j+1:]
+		}
+		if cnt[t] == 0 {
+			order = append(order, t)
+		}
+		cnt[t]++
+	}
+	var sb strings.Builder
+	for _, t := range order {
+		fmt.Fprintf(&sb, "%s×%d ", t, cnt[t])
+	}
+	return sb.String()
+}
+
+func asFloat(v interface{}) float64 {
+	if f, ok := v.(float64); ok {
+		return f
+	}
+	return 0
 }
 
 func errStr(err error) string {
@@ -173,6 +259,16 @@ func safeEnd(n *Node) (ctx sdk.Context, evs []abci.Event, err error) {
 func (n *Node) Export() map[string]json.RawMessage {
 	c, _ := n.Ctx.CacheContext()
 	return n.Env.App.ExportState(c)
+}
+
+// tryExport is Export with a panic turned into an error (an export that panics is a finding, not a harness failure).
+func (n *Node) tryExport() (g map[string]json.RawMessage, err error) {
+	defer func() {
+		if r := recover(); r != nil {
+			err = fmt.Errorf("panic in ExportState: %v", r)
+		}
+	}()
+	return n.Export(), nil
 }
 
 func runAll(n *Node, blocks []Block) [][]Step {
@@ -275,7 +371,7 @@ type replayCfg struct {
 func main() {
 	f := core.ParseFlags()
 	r := core.NewResult(f.Prop)
-	scripts := Scripts()
+	scripts := append(append(append(Scripts(), moreScripts()...), moreScripts3()...), moreScripts4()...)
 	if haveMapHook {
 		installMapHook()
 	}
@@ -283,14 +379,69 @@ func main() {
 	if f.Replay != "" {
 		core.ReadReplay(f.Replay, &only)
 	}
+	// development aids (never set by bin/run): restrict the scripts / axes that are executed
+	if v := os.Getenv("VERIF_DEV_SCRIPTS"); v != "" && f.Replay == "" {
+		var keep []Script
+		for _, sc := range scripts {
+			if strings.Contains(","+v+",", ","+sc.Name+",") {
+				keep = append(keep, sc)
+			}
+		}
+		scripts = keep
+	}
+	axisOn := func(name string) bool {
+		v := os.Getenv("VERIF_DEV_AXES")
+		return v == "" || f.Replay != "" || strings.Contains(","+v+",", ","+name+",")
+	}
+	// coverage report (shard 0): what the workloads reach
+	cov := newCoverage()
+	doCov := f.Replay == "" && f.Shard == 0
+	if doCov {
+		b := genesisNode()
+		cov.base(b)
+		b.Env.Close()
+	}
 	item := 0
 	for _, sc := range scripts {
 		if f.Replay != "" && sc.Name != only.Script {
 			continue
 		}
+		// Every shard executes every script's reference first (unhooked): separate processes must agree on its
+		// digest, and the hooked executions of the map-order axis then start from the same warmed-up process
+		// state in every shard (lazily initialised package-level tables iterate maps on first use), so that
+		// all shards number the choice points identically.
 		// reference execution
-		ref := genesisNode()
-		refSteps := runAll(ref, sc.Blocks)
+		ref := newNode(sc)
+		var refSteps [][]Step
+		for _, b := range sc.Blocks {
+			refSteps = append(refSteps, ref.RunBlock(b))
+			if doCov {
+				cov.exportPoint(sc.Name, ref.Export())
+			}
+		}
+		if os.Getenv("VERIF_DEBUG") == "2" {
+			for bi, bs := range refSteps {
+				for _, st := range bs {
+					fmt.Printf("DBG %s block %d %s -> %s | %s\n", sc.Name, bi+1, st.What, clip(st.Result), eventTypes(st.Events))
+				}
+			}
+		}
+		if doCov {
+			// events that must have happened for the new workloads to mean what they claim
+			for _, bs := range refSteps {
+				for _, st := range bs {
+					r.Vacuity["epoch_ends"] += int64(strings.Count(st.Events, "epoch_end{"))
+					r.Vacuity["protorev_backruns"] += int64(strings.Count(st.Events, "protorev_backrun{"))
+					r.Vacuity["cl_incentives_collected"] += int64(strings.Count(st.Events, "collect_incentives{"))
+					r.Vacuity["wasm_contract_executions"] += int64(strings.Count(st.Events, "execute{"))
+					if strings.Contains(st.Result, "before send hook") {
+						r.Vacuity["before_send_hook_refusals"]++
+					}
+				}
+			}
+			cov.txs(sc, refSteps)
+			r.Vacuity["gov_proposals_passed"] += int64(cov.passedProposals(sc, ref))
+		}
 		okTx, failTx := 0, 0
 		for _, bs := range refSteps {
 			for _, s := range bs {
@@ -319,8 +470,8 @@ func main() {
 		ref.Env.Close()
 
 		// axis "instance": a second application instance in the same process
-		if (f.Replay == "" && f.Mine(item)) || only.Axis == "instance" {
-			n2 := genesisNode()
+		if (f.Replay == "" && f.Mine(item) && axisOn("instance")) || only.Axis == "instance" {
+			n2 := newNode(sc)
 			s2 := runAll(n2, sc.Blocks)
 			for bi := range s2 {
 				if d := diffSteps(refSteps[bi], s2[bi], false); d != "" {
@@ -338,7 +489,7 @@ func main() {
 
 		// axis "export": export/import after every block
 		for k := 0; k < len(sc.Blocks); k++ {
-			mine := (f.Replay == "" && f.Mine(item)) || (only.Axis == "export" && only.K == k)
+			mine := (f.Replay == "" && f.Mine(item) && axisOn("export")) || (only.Axis == "export" && only.K == k)
 			item++
 			if !mine {
 				continue
@@ -350,12 +501,15 @@ func main() {
 		if f.Replay != "" && sc.Name != only.Script {
 			continue
 		}
-		if f.Replay == "" || only.Axis == "clock" {
+		if (f.Replay == "" && axisOn("clock")) || only.Axis == "clock" {
 			clockAxis(f, r, sc, &only, &item)
 		}
-		if f.Replay == "" || only.Axis == "maporder" {
-			mapOrderAxis(f, r, sc, &only, &item)
-		}
+	}
+	if (f.Replay == "" && axisOn("maporder")) || only.Axis == "maporder" || only.Axis == "maporder-ref" {
+		mapOrderAxis(f, r, scripts, &only, &item)
+	}
+	if doCov {
+		cov.report(r)
 	}
 	scanGoroutines(f, r)
 	r.DepthCompleted = 0
@@ -368,7 +522,7 @@ func exportImportAt(f *core.Flags, r *core.Result, sc Script, refSteps [][]Step,
 	// global that is overwritten whenever an application is constructed, so only the most recently
 	// constructed application in a process can export. Node A therefore runs to the end (and exports)
 	// before node B is constructed.
-	a := genesisNode()
+	a := newNode(sc)
 	for i := 0; i <= k; i++ {
 		a.RunBlock(sc.Blocks[i])
 	}
@@ -390,9 +544,25 @@ func exportImportAt(f *core.Flags, r *core.Result, sc Script, refSteps [][]Step,
 	// Import as an operator would (genesis invariant assertion skipped) and run the registered invariants
 	// as a separate, named oracle: a broken invariant is reported by its name and does not hide the
 	// differential comparison that follows.
+	// The import itself runs under a whole-schedule rotation of the map-iteration order (a different one
+	// per export point): InitGenesis code that depends on it shows up as a difference from the exporting node.
+	if haveMapHook {
+		mo.idx, mo.devAt, mo.devAt2, mo.sched = 0, -1, -1, 1+k%8
+		mo.log = mo.log[:0]
+		mo.enabled = true
+	}
 	b, err := core.ImportNodeOpts(g, height, btime, true)
+	if haveMapHook {
+		mo.enabled = false
+		mo.sched = 0
+		r.Vacuity["imports_under_rotated_map_order"]++
+		if float64(mo.idx) > asFloat(r.Extra["max_choice_points_during_import"]) {
+			r.Extra["max_choice_points_during_import"] = float64(mo.idx)
+		}
+	}
 	if err != nil {
-		r.AddViolation(core.Violation{Property: f.Prop, Assertion: "c19.import-succeeds", Signature: fmt.Sprintf("%s|k=%d", sc.Name, k), Detail: err.Error(), Replay: rp})
+		r.AddViolation(core.Violation{Property: f.Prop, Assertion: "c19.import-succeeds", Signature: sc.Name + "|" + errClass(err.Error()),
+			Detail: fmt.Sprintf("export after block %d cannot be imported: %s", k, err.Error()), Replay: rp})
 		return
 	}
 	defer b.Close()
@@ -406,7 +576,12 @@ func exportImportAt(f *core.Flags, r *core.Result, sc Script, refSteps [][]Step,
 	}
 	bc, _ := b.Ctx.CacheContext()
 	bn := &Node{Env: b, Ctx: bc.WithExecMode(sdk.ExecModeFinalize)}
-	g2 := bn.Export()
+	g2, err := bn.tryExport()
+	if err != nil {
+		r.AddViolation(core.Violation{Property: f.Prop, Assertion: "c19.imported-node-exports", Signature: sc.Name + "|" + errClass(err.Error()),
+			Detail: fmt.Sprintf("the node imported from the export after block %d cannot export: %s", k, err.Error()), Replay: rp})
+		return
+	}
 	sd := storeDiff(aAtExport, bn)
 	if os.Getenv("VERIF_DEBUG") != "" {
 		fmt.Printf("k=%d store differences after import: %v\n", k, sd)
@@ -423,13 +598,21 @@ func exportImportAt(f *core.Flags, r *core.Result, sc Script, refSteps [][]Step,
 		sa := stepsA[i-k-1]
 		r.Transitions += int64(2 * len(sa))
 		if d := diffSteps(sa, sb, true); d != "" {
-			r.AddViolation(core.Violation{Property: f.Prop, Assertion: "c19.imported-node-same-results", Signature: fmt.Sprintf("%s|export after block %d|first divergence in block %d %s", sc.Name, k, i, firstDiffStepImported(sa, sb)),
-				Detail: fmt.Sprintf("export point after block %d: %s", k, d), Replay: rp})
+			r.AddViolation(core.Violation{Property: f.Prop, Assertion: "c19.imported-node-same-results", Signature: sc.Name + "|" + divergenceClass(sa, sb),
+				Detail: fmt.Sprintf("export point after block %d, first divergence in block %d %s: %s", k, i, firstDiffStepImported(sa, sb), d), Replay: rp})
 			return
 		}
 	}
 	if k+1 < len(sc.Blocks) {
-		gb := bn.Export()
+		gb, err := bn.tryExport()
+		if err != nil {
+			r.AddViolation(core.Violation{Property: f.Prop, Assertion: "c19.imported-node-exports", Signature: sc.Name + "|" + errClass(err.Error()),
+				Detail: fmt.Sprintf("the node imported from the export after block %d cannot export at the end of the script: %s", k, err.Error()), Replay: rp})
+			return
+		}
+		if m := os.Getenv("VERIF_DEBUG_MODULE"); m != "" {
+			fmt.Printf("DBG final export of %s on the exporting node: %s\nDBG final export of %s on the imported node: %s\n", m, canonJSON(ga[m]), m, canonJSON(gb[m]))
+		}
 		for _, d := range diffExports(ga, gb) {
 			mod := strings.SplitN(d, ":", 2)[0]
 			r.AddViolation(core.Violation{Property: f.Prop, Assertion: "c19.imported-node-same-final-state", Signature: sc.Name + "|" + mod,
@@ -518,10 +701,40 @@ func firstDiffStepImported(a, b []Step) string {
 	return "length"
 }
 
+// divergenceClass is the stable part of a divergence between the exporting and the imported node: the
+// first step that differs (message types) and how (result classes, or events only).
+func divergenceClass(a, b []Step) string {
+	for i := range a {
+		if i >= len(b) {
+			break
+		}
+		isBlock := a[i].What == "begin" || a[i].What == "end"
+		if a[i].What == "state" || (isBlock && a[i].Result == b[i].Result) || (!isBlock && a[i] == b[i]) {
+			continue
+		}
+		cls := func(r string) string {
+			if r == "ok" {
+				return "ok"
+			}
+			return errClass(r)
+		}
+		if a[i].Result == b[i].Result {
+			return a[i].What + "|same result, different events"
+		}
+		return a[i].What + "|" + cls(a[i].Result) + " vs " + cls(b[i].Result)
+	}
+	return "length"
+}
+
 func firstDiffStep(a, b []Step) string {
 	for i := range a {
 		if i < len(b) && a[i].What != "state" && a[i] != b[i] {
 			return fmt.Sprintf("step %d (%s)", i, strings.Fields(a[i].What)[0])
+		}
+	}
+	for i := range a {
+		if i < len(b) && a[i] != b[i] {
+			return "store content only"
 		}
 	}
 	return "length"
